@@ -150,6 +150,46 @@ theorem suffix_joinPath (e : List Char) (he : '/' ∉ e) :
         obtain ⟨pre, hp⟩ := ih.2 hs
         exact ⟨a ++ '/' :: pre, by simp [← hp]⟩
 
+theorem anyDepthAlt_of_second (c d : Char) (r s : List Char) (h : d ≠ '*') : anyDepthAlt (c :: d :: r) s = false := by
+  unfold anyDepthAlt
+  split
+  · rename_i heq; simp at heq; exact absurd heq.2.1 h
+  · rfl
+
+theorem anyDepthAlt_of_first (c : Char) (r s : List Char) (h : c ≠ '*') : anyDepthAlt (c :: r) s = false := by
+  unfold anyDepthAlt
+  split
+  · rename_i heq; simp at heq; exact absurd heq.1 h
+  · rfl
+
+theorem anyDepthAlt_short (c : Char) (s : List Char) : anyDepthAlt [c] s = false := by
+  unfold anyDepthAlt; split
+  · rename_i heq; simp at heq
+  · rfl
+
+theorem anyDepthAlt_nil (s : List Char) : anyDepthAlt [] s = false := by
+  unfold anyDepthAlt; split
+  · rename_i heq; simp at heq
+  · rfl
+
+/-- a literal pattern has no `**/` in front -/
+theorem anyDepthAlt_literal (l s : List Char) (hl : literal l = true) : anyDepthAlt l s = false := by
+  cases l with
+  | nil => exact anyDepthAlt_nil s
+  | cons c r =>
+    apply anyDepthAlt_of_first
+    intro h; subst h
+    simp [literal, isGlobChar] at hl
+
+/-- `*` followed by a literal has no `**/` in front -/
+theorem anyDepthAlt_star_literal (e s : List Char) (he : literal e = true) : anyDepthAlt ('*' :: e) s = false := by
+  cases e with
+  | nil => exact anyDepthAlt_short _ s
+  | cons d r =>
+    apply anyDepthAlt_of_second
+    intro h; subst h
+    simp [literal, isGlobChar] at he
+
 /-- `*.ext` patterns are exact: the file's name ends with the extension, in any directory -/
 theorem ext_pattern_exact (e : Name) (p : Path) (he : literal e = true) (hs : '/' ∉ e) (hp : p ≠ []) :
     matchesPattern p (Form.ext e).render = (Form.ext e).specMatch p := by
@@ -167,7 +207,8 @@ theorem ext_pattern_exact (e : Name) (p : Path) (he : literal e = true) (hs : '/
     cases h : p.getLast? with
     | none => simp at h; exact absurd h hp
     | some n => exact ⟨n, rfl⟩
-  simp only [matchesPattern, Form.render, hlast, Bool.false_eq_true, if_false, Form.specMatch, hn]
+  simp only [matchesPattern, Form.render, hlast, Bool.false_eq_true, if_false, Form.specMatch, hn, anyDepthAlt_star_literal e _ he,
+    Bool.or_false]
   rw [Bool.eq_iff_iff, glob_star_literal e _ he, suffix_joinPath e hs p n hn]
   simp [List.isSuffixOf_iff_suffix] 
 
@@ -296,7 +337,7 @@ theorem exact_pattern_exact (q p : Path) (hq : literal (joinPath q) = true)
     (hlast : (joinPath q).getLast? ≠ some '/') :
     matchesPattern p (Form.exact q).render = (Form.exact q).specMatch p := by
   have : ((joinPath q).getLast? == some '/') = false := by simpa using hlast
-  simp only [matchesPattern, Form.render, this, Bool.false_eq_true, if_false, Form.specMatch]
+  simp only [matchesPattern, Form.render, this, Bool.false_eq_true, if_false, Form.specMatch, anyDepthAlt_literal _ _ hq, Bool.or_false]
   rw [Bool.eq_iff_iff, glob_literal _ _ hq]
   constructor
   · intro h; simpa using joinPath_inj p q hps hqs hp0 hq0 h
@@ -444,6 +485,90 @@ theorem dirpath_pattern_exact (q p : Path) (hq : literal (joinPath q) = true) (h
   rw [Bool.eq_iff_iff, e, glob_literal_star _ _ hlit, List.isPrefixOf_iff_prefix,
     joinPath_slash_prefix _ p hqs hps (by simp) hp0]
 
+theorem glob_star_star_literal (e s : List Char) (he : literal e = true) :
+    glob ('*' :: '*' :: e) s = true ↔ e <:+ s := by
+  rw [glob_star, anySuffix_iff]
+  constructor
+  · rintro ⟨pre, t, rfl, ht⟩
+    obtain ⟨pre2, rfl⟩ := (glob_star_literal e t he).1 ht
+    exact ⟨pre ++ pre2, by simp⟩
+  · rintro ⟨pre, rfl⟩
+    exact ⟨pre, e, rfl, (glob_star_literal e e he).2 ⟨[], rfl⟩⟩
+
+theorem slash_suffix_append {a n y : List Char} (ha : '/' ∉ a) :
+    ('/' :: n) <:+ (a ++ y) ↔ ('/' :: n) <:+ y := by
+  induction a with
+  | nil => simp
+  | cons c r ih =>
+    simp at ha
+    rw [List.cons_append, List.suffix_cons_iff, ih ha.2]
+    constructor
+    · rintro (h | h)
+      · simp at h; exact absurd h.1 ha.1
+      · exact h
+    · intro h; exact Or.inr h
+
+/-- `/name` ends a joined path exactly when the path has a directory part and its last component is `name` -/
+theorem slash_suffix_joinPath (n : Name) (hn : '/' ∉ n) : (p : Path) → (∀ c ∈ p, '/' ∉ c) → p ≠ [] →
+    (('/' :: n) <:+ joinPath p ↔ 2 ≤ p.length ∧ p.getLast? = some n)
+  | [], _, h => absurd rfl h
+  | [a], hp, _ => by
+      simp only [joinPath, List.length_singleton]
+      constructor
+      · rintro ⟨t, ht⟩
+        exact absurd (ht ▸ List.mem_append_right t (List.mem_cons_self ..)) (hp a (by simp))
+      · intro h; omega
+  | a :: b :: r, hp, _ => by
+      have ih := slash_suffix_joinPath n hn (b :: r) (fun x hx => hp x (by simp [hx])) (by simp)
+      rw [joinPath_cons2, slash_suffix_append (hp a (by simp)), List.suffix_cons_iff, ih, List.getLast?_cons_cons]
+      constructor
+      · rintro (h | ⟨_, h⟩)
+        · simp at h
+          have : b :: r = [n] := joinPath_inj (b :: r) [n] (fun x hx => hp x (by simp [hx])) (by simpa using hn) (by simp) (by simp)
+            (by simpa [joinPath] using h.symm)
+          exact ⟨by simp, by rw [this]; rfl⟩
+        · exact ⟨by simp, h⟩
+      · rintro ⟨_, h⟩
+        cases r with
+        | nil =>
+          left
+          simp at h; subst h
+          simp [joinPath]
+        | cons c r' => exact Or.inr ⟨by simp, h⟩
+
+/-- `**/name` : a file of that name at any depth, the top level included (F14e repaired) -/
+theorem anyfile_pattern_exact (n : Name) (p : Path) (hn : literal n = true) (hs : '/' ∉ n) (hne : n ≠ [])
+    (hps : ∀ c ∈ p, '/' ∉ c) (hp0 : p ≠ []) :
+    matchesPattern p (Form.anyFile n).render = (Form.anyFile n).specMatch p := by
+  have hlast : (('*' :: '*' :: '/' :: n).getLast? == some '/') = false := by
+    cases n with
+    | nil => exact absurd rfl hne
+    | cons c r =>
+      have : ('*' :: '*' :: '/' :: c :: r).getLast? = (c :: r).getLast? := by
+        simp [List.getLast?_cons_cons]
+      rw [this]
+      cases hl : (c :: r).getLast? with
+      | none => simp
+      | some x =>
+        have : x ∈ c :: r := List.mem_of_getLast? hl
+        simp; intro hx; subst hx; exact hs this
+  have hlit : literal ('/' :: n) = true := by
+    simp only [literal, List.all_cons, Bool.and_eq_true] at hn ⊢
+    exact ⟨by decide, hn⟩
+  simp only [matchesPattern, Form.render, hlast, Bool.false_eq_true, if_false, Form.specMatch, anyDepthAlt]
+  rw [Bool.eq_iff_iff, Bool.or_eq_true, glob_star_star_literal _ _ hlit, glob_literal _ _ hn,
+    slash_suffix_joinPath n hs p hps hp0]
+  simp only [beq_iff_eq]
+  constructor
+  · rintro (⟨_, h⟩ | h)
+    · exact h
+    · have : p = [n] := joinPath_inj p [n] hps (by simpa using hs) hp0 (by simp) (by simpa [joinPath] using h)
+      rw [this]; rfl
+  · intro h
+    match p, hp0, h with
+    | [a], _, h => right; simp at h; subst h; simp [joinPath]
+    | a :: b :: r, _, h => exact Or.inl ⟨by simp, h⟩
+
 /-- **Every documented pattern form means what gitignore says it means.** -/
 theorem forms_exact (f : Form) (p : Path) (hf : f.wf = true) (hps : ∀ c ∈ p, '/' ∉ c) (hp0 : p ≠ []) :
     matchesPattern p f.render = f.specMatch p := by
@@ -474,6 +599,9 @@ theorem forms_exact (f : Form) (p : Path) (hf : f.wf = true) (hps : ∀ c ∈ p,
   | globDir a g =>
     simp [Form.wf] at hf
     exact globdir_pattern_exact a g p hf.1.1 hf.1.2
+  | anyFile n =>
+    simp [Form.wf] at hf
+    exact anyfile_pattern_exact n p hf.1.1 hf.1.2 hf.2 hps hp0
   | dirPath q =>
     simp [Form.wf] at hf
     obtain ⟨⟨h1, h2⟩, h3⟩ := hf
